@@ -484,6 +484,8 @@ class The(ResultQuantifier[T]):
 
     def evaluate(self) -> TypingUnion[Iterable[T], T, UnificationDict]:
         completed = False
+        # an earlier evaluation that was abandoned but is still referenced has not run its finally clause yet.
+        self._reset_cache_()
         try:
             # like An.evaluate: predicates run and instances are constructed concretely during evaluation.
             with symbolic_mode(mode=None):
@@ -536,6 +538,8 @@ class An(ResultQuantifier[T]):
         self._node_.wrap_subtree = True
 
     def evaluate(self) -> Iterable[TypingUnion[T, Dict[TypingUnion[T, SymbolicExpression[T]], T]]]:
+        # an earlier evaluation that was abandoned but is still referenced has not run its finally clause yet.
+        self._reset_cache_()
         results = self._evaluate__()
         completed = False
         try:
